@@ -501,22 +501,31 @@ func (m *c03Machine) settleWithin(t *rapid.T, mustReturn *c03Call, soft time.Dur
 	timer := time.NewTimer(bound)
 	defer timer.Stop()
 	for {
-	drain:
-		for {
+		// one call site for onEvent: rapid compares tracebacks when it replays a failure
+		var (
+			ev   c03Event
+			have bool
+		)
+		select {
+		case ev = <-m.getter.events:
+			have = true
+		default:
+		}
+		if !have {
+			if m.stable(mustReturn) {
+				return true
+			}
 			select {
-			case ev := <-m.getter.events:
-				m.onEvent(t, ev)
-			default:
-				break drain
+			case ev = <-m.getter.events:
+				have = true
+			case <-timer.C:
 			}
 		}
-		if m.stable(mustReturn) {
-			return true
-		}
-		select {
-		case ev := <-m.getter.events:
+		if have {
 			m.onEvent(t, ev)
-		case <-timer.C:
+			continue
+		}
+		{
 			if soft > 0 {
 				return false
 			}
@@ -544,7 +553,7 @@ func (m *c03Machine) settleWithin(t *rapid.T, mustReturn *c03Call, soft time.Dur
 // the session does not hold them. It only adds sensitivity: an overlap is detected inside the
 // getter whenever it happens.
 func (m *c03Machine) grace(t *rapid.T) {
-	time.Sleep(300 * time.Microsecond)
+	time.Sleep(500 * time.Microsecond)
 	m.settle(t, nil)
 	if o := m.getter.overlap(); o != "" {
 		m.fail(t, "C03/session-exclusion: expected concurrent calls for one height to be serialised by the height's session; two calls for one height were inside the getter at the same time", "%s", o)
